@@ -133,7 +133,6 @@ var probeAddrs = []uint32{addrLo, addrLo2, addrHi}
 
 func u(v uint64) string { return strconv.FormatUint(v, 10) }
 
-
 func label(side, what string, arg uint64, hasArg bool) string {
 	k := side + "." + what
 	if hasArg {
